@@ -150,6 +150,17 @@ def build_azimuthal(rng, n_az=None, equal_counts=None):
             lf = np.log(f)
             amp = 1.0 + rng.uniform(1, 5, (nc, 1)) * np.exp(-0.5 * ((lf[None, :] - rng.uniform(lf[2], lf[-3], (nc, 1))) / rng.uniform(0.1, 0.4, (nc, 1))) ** 2)
         hv.append(hvsrpy.HvsrTraditional(f, amp))
+    if rng.random() < 0.3:
+        # assembled from per-azimuth results that already have a PAST of their own (a narrowed search range, a few windows
+        # rejected by hand) - each azimuth in another state, the first one often still untouched.  The azimuthal object
+        # is a new result: it starts from the curves alone (all windows accepted, the full range on every azimuth).
+        for a, h in enumerate(hv):
+            if rng.random() < (0.25 if a == 0 else 0.6):
+                h.update_peaks_bounded(search_range_in_hz=rand_range(rng, h.frequency))
+                if rng.random() < 0.5 and h.n_curves > 2:
+                    i = int(rng.integers(0, h.n_curves))
+                    h.valid_window_boolean_mask[i] = False
+                    h.valid_peak_boolean_mask[i] = False
     az = np.sort(rng.choice(np.arange(0, 180, 0.5), size=n_az, replace=False)).tolist()
     meta = {"processing_method": "azimuthal"}
     if rng.random() < 0.35:
